@@ -31,7 +31,7 @@ pub struct Variant {
 fn refs_of(s: &Step) -> Vec<usize> {
     match s {
         Step::Apply(a) => a.args.clone(),
-        Step::Flag { h, .. } | Step::Backward { h, .. } | Step::ReadGrad { h } | Step::ClearGrad { h, .. } | Step::Clone { h } | Step::Drop { h } => vec![*h],
+        Step::ProbeSole { h } | Step::Flag { h, .. } | Step::Backward { h, .. } | Step::ReadGrad { h } | Step::ClearGrad { h, .. } | Step::Clone { h } | Step::Drop { h } => vec![*h],
         Step::Rebind { target, spec } => {
             let mut v = spec.args.clone();
             v.push(*target);
